@@ -12,11 +12,30 @@ from ..lib_data import MaskV, MASK_KEY
 F = 'fedjax/core/client_datasets.py'
 
 
+PROMOTE = z3.Function('np_result_type', DType, DType, DType)     # numpy type promotion; only PROMOTE(d, d) = d is known
+
+
+def c_concatenate(ctx, parts, axis=0):
+  items = ctx.engine.concrete_items(ctx, parts)
+  cols = [(x.cell(ctx).col if isinstance(x, Ref) and isinstance(x.cell(ctx), ArrCell) else x) for x in items]
+  if not cols or not all(isinstance(c, ColD) for c in cols) or to_z3(axis) is None:
+    raise Unsupported('np.concatenate arguments')
+  rows, trail, dt = cols[0].rows, cols[0].trail, cols[0].dtype
+  for c in cols[1:]:
+    ctx.oblige('concat.shape', c.trail == trail, kind='definedness', detail='ValueError: trailing dimensions must match')
+    rows = z3.Concat(rows, c.rows)
+    d2 = PROMOTE(dt, c.dtype)
+    ctx.assume(z3.Implies(dt == c.dtype, d2 == dt))
+    dt = d2
+  return ColD(rows, trail, dt, True)
+
+
 def helper_globals():
+  dts = {n_: z3.Const('np_' + n_, DType) for n_ in ('int8', 'uint8', 'int16', 'int32', 'int64', 'float32', 'float64', 'bool_')}
   return {
       'EXAMPLE_MASK_KEY': MASK_KEY,
-      'np': Module('np', {'zeros': Handler(c_np_zeros, 'np.zeros'),
-                          'arange': Handler(c_np_arange, 'np.arange')}),
+      'np': Module('np', dict(dts, zeros=Handler(c_np_zeros, 'np.zeros'), arange=Handler(c_np_arange, 'np.arange'),
+                              concatenate=Handler(c_concatenate, 'np.concatenate'))),
       'num_examples': Handler(c_num_examples_d, 'num_examples'),
       'assert_consistent_rows': Handler(lambda ctx, ex: None, 'assert_consistent_rows'),
   }
